@@ -25,6 +25,7 @@ if ! go build -C "$HERE/sim" $MODFLAG -tags verif -o "$BIN" . 2> "$HERE/.work/bu
   exit 2
 fi
 rm -f "$HERE/.work/build.$$.log"
+case "$1:$2" in replay:*C20*) VERIF_NEED_RACE=1;; esac
 if [ "${VERIF_NEED_RACE:-0}" = "1" ] || [ "$2" = "C20" ]; then
   if ! go build -C "$HERE/sim" $MODFLAG -race -tags verif -o "$BIN.race" . 2> "$HERE/.work/build.$$.log"; then
     echo "BUILD-ERROR (exit 2): the race-detector build of the simulator fails against $REPO"
